@@ -153,27 +153,37 @@ func (m *minimiser) minimise(cs []runCase) []runCase {
 					try(cand)
 				}
 			}
-			// 7. schedule segments: drop, merge, shorten
-			for g := 0; g < len(cur[ri].sched.Segs); {
-				cand := cloneCases(cur)
-				sg := cand[ri].sched.Segs
-				cand[ri].sched.Segs = append(sg[:g:g], sg[g+1:]...)
-				if !try(cand) {
-					g++
-				}
-			}
-			for g := 0; g+1 < len(cur[ri].sched.Segs); {
-				sg := cur[ri].sched.Segs
-				if sg[g].Task == sg[g+1].Task {
+			// 7. schedule segments: ddmin (drop chunks of halving size), then merge neighbours
+			for chunk := (len(cur[ri].sched.Segs) + 1) / 2; chunk >= 1; {
+				removed := false
+				for g := 0; g < len(cur[ri].sched.Segs); {
+					end := g + chunk
+					if end > len(cur[ri].sched.Segs) {
+						end = len(cur[ri].sched.Segs)
+					}
 					cand := cloneCases(cur)
-					c := cand[ri].sched.Segs
-					c[g].N += c[g+1].N
-					cand[ri].sched.Segs = append(c[:g+1:g+1], c[g+2:]...)
+					sg := cand[ri].sched.Segs
+					cand[ri].sched.Segs = append(sg[:g:g], sg[end:]...)
 					if try(cand) {
-						continue
+						removed = true
+					} else {
+						g = end
 					}
 				}
-				g++
+				if chunk == 1 && !removed {
+					break
+				}
+				if !removed || chunk > len(cur[ri].sched.Segs) {
+					chunk /= 2
+				}
+				if m.budget <= 0 {
+					break
+				}
+			}
+			if merged := mergeSegs(cur[ri].sched.Segs); len(merged) < len(cur[ri].sched.Segs) {
+				cand := cloneCases(cur)
+				cand[ri].sched.Segs = merged
+				try(cand)
 			}
 		}
 		if m.size(cur) >= before || m.budget <= 0 {
@@ -198,6 +208,23 @@ func (m *minimiser) size(cs []runCase) int {
 		n += len(c.sched.Segs) + len(c.sched.GC)
 	}
 	return n
+}
+
+// mergeSegs joins neighbouring segments of the same task (behaviour preserving: a segment
+// that hands over to its own task just continues).
+func mergeSegs(segs []Segment) []Segment {
+	var out []Segment
+	for _, s := range segs {
+		if n := len(out); n > 0 && out[n-1].Task == s.Task {
+			out[n-1].N += s.N
+			if out[n-1].N < 0 || out[n-1].N > 1<<60 {
+				out[n-1].N = 1 << 60
+			}
+			continue
+		}
+		out = append(out, s)
+	}
+	return out
 }
 
 func dropTask(c *runCase, t int) {
